@@ -249,6 +249,36 @@ func init() {
 			{Name: "inverse-every-day", Thorough: []int{1}, Run: func(c *explore.Chooser, x *explore.Ctx, _ int) {
 				c19Inverse(c, x, c19Lo+c.Choose(c19Hi-c19Lo+1))
 			}},
+			{Name: "inverse-picture-shapes", Quick: []int{1}, ShardDepth: -1, Run: func(c *explore.Chooser, x *explore.Ctx, _ int) {
+				// pictures built from the statement's components in other arrangements: no separators, other
+				// separators, another order. One finding per picture (keyed by the picture).
+				pics := []string{
+					"[Y0001][M01][D01][H01][m01][s01][f001]",
+					"[Y0001][M01][D01]T[H01][m01][s01].[f001]",
+					"[Y0001]-[M01]-[D01] [H01]:[m01]:[s01]:[f001]",
+					"[Y0001]-[M01]-[D01] [H01]:[m01]:[s01] [f001]",
+					"[Y0001]/[M01]/[D01] [H01].[m01].[s01],[f001]",
+					"[H01]:[m01]:[s01].[f001] [D01]-[M01]-[Y0001]",
+					"[D01].[M01].[Y0001] [H01]:[m01]:[s01]",
+					"[Y0001][M01][D01][H01][m01][s01]",
+					"[Y0001]-[M01]-[D01]T[H01]:[m01]:[s01].[f001][Z01:01]",
+				}
+				pic := pics[c.Choose(len(pics))]
+				ms := []int64{1521801216617, 86399999, 253402300799999, -30610224000000 + 1, 1000}[c.Choose(5)]
+				c.Done()
+				if !strings.Contains(pic, "[f001]") {
+					ms -= ((ms % 1000) + 1000) % 1000 // whole seconds without [f001]
+				}
+				doc := map[string]interface{}{"ms": float64(ms), "p": pic}
+				got := impl.Run(`$toMillis($fromMillis(ms, p), p) = ms`, doc)
+				x.Eval()
+				x.Validated()
+				if !(got.Kind == impl.Value && got.Val == true) {
+					x.Violation("value", "inverse-picture:"+pic, explore.Detail{Program: `$toMillis($fromMillis(ms, p), p) = ms`, Input: jsonText(doc), Expected: "value true", Observed: got.String()})
+				}
+				x.Nontrivial()
+				x.Outcome(got.Short())
+			}},
 			{Name: "malformed", Quick: []int{0, 1, 2, 3, 4}, Thorough: []int{0, 1, 2, 3, 4, 5}, Run: func(c *explore.Chooser, x *explore.Ctx, n int) {
 				if c.Bool() {
 					pic := c16StringN(c, n, []string{"[", "]", "Y", "Q", "0", "1", ",", "-", "*", "x"})
